@@ -23,7 +23,7 @@ ASSUMPTIONS = ['rows are float vectors of width 2 or 6; only operations that are
                'with drop_at the model is: contents are a suffix of the full list and include the newest row; an append (single '
                'or bulk) that brings the length to a multiple of drop_at discards the oldest drop_at // 2 rows and nothing else '
                'ever discards (the policy the ticker / trade / orderbook stores are sized for)']
-MIN_OBS = {'setslice_bounds_beyond_length': 50, 'bulk_appends_of_no_rows': 20, 'bulk_appends_into_empty': 100, 'ops': 5000, 'slice_reads': 100000, 'index_reads': 20000, 'bucket_crossings': 500, 'deletes': 500,
+MIN_OBS = {'setslice_bounds_beyond_length': 50, 'bulk_appends_of_no_rows': 10, 'bulk_appends_of_blank_rows': 10, 'bulk_appends_into_empty': 100, 'ops': 5000, 'slice_reads': 100000, 'index_reads': 20000, 'bucket_crossings': 500, 'deletes': 500,
            'append_after_delete': 300, 'negative_slice_start_reads': 5000, 'setitem_ops': 200}
 EXHAUSTIVE_NOTE = 'DFS jobs enumerate every sequence over their alphabet up to their depth (see samples of kind dfs)'
 
@@ -102,8 +102,10 @@ class Harness:
         self._model_append(want)
         self.c('append_self_read_rows')
 
-    def op_append_multiple(self, k):
+    def op_append_multiple(self, k, blank=False):
         rs = [self.new_row() for _ in range(k)]
+        if blank:
+            rs = [[0.0] * self.width for _ in range(k)]      # rows reserved for later assignment: all zeros are rows too
         self.hist.append(['M', k])
         try:
             self.a.append_multiple(_rows(rs) if k else np.zeros((0, self.width)))
@@ -403,9 +405,12 @@ def _random(job):
                         s_ = rng.choice([rng.randrange(0, n), -n - rng.randint(1, 3), rng.randrange(-n, 0)])
                         h.op_setslice(s_, n + rng.randint(1, 50))
                         h.c('setslice_bounds_beyond_length')
-                    else:
+                    elif rng.random() < 0.5:
                         h.op_append_multiple(0)
                         h.c('bulk_appends_of_no_rows')
+                    else:
+                        h.op_append_multiple(rng.randint(1, 3), blank=True)
+                        h.c('bulk_appends_of_blank_rows')
                 elif r < 0.92:
                     s = rng.randrange(-n, n)
                     e = rng.choice([None, rng.randint(s if s >= 0 else s, n if s >= 0 else 0)])
